@@ -23,7 +23,7 @@ TEXT_WORDS = ("desc", "summary", "title", "default")
 LOG_FUNCS = {"debug", "info", "warning", "error", "exception", "critical", "warn"}
 
 MODELLED = {1: "enum_value", 2: "meta_key", 3: "disc_prop", 4: "disc_value", 5: "query_key", 6: "header_key", 7: "media_type",
-            8: "default", 17: "enum_default", 9: "alias_doc", 10: "field_comment", 11: "wrapper_doc", 12: "DocumentationWriter", 13: "tag_doc",
+            8: "default", 17: "enum_default", 20: "media_repr", 9: "alias_doc", 10: "field_comment", 11: "wrapper_doc", 12: "DocumentationWriter", 13: "tag_doc",
             14: "block_doc_line", 15: "client_doc_title", 16: "client_doc_description"}
 
 # (file, function, template prefix) -> site number (0 = not free text, with the reason as a comment)
@@ -33,15 +33,9 @@ KNOWN: dict[tuple[str, str, str], int] = {
     (R, "render_enum", '__all__ = ["{enum_name}"]'): 0,                       # class name (sanitised)
     (R, "render_dataclass", '__all__ = ["{class_name}"]'): 0,                 # class name
     (R, "render_alias", '    """Discriminator metadata for {alias_name} union."""'): 0,   # alias name
-    (R, "render_alias", '    property_name: str = "{discriminator.property_name}"'): 3,
     (R, "render_alias", '"""Alias for {safe_desc_content}"""'): 9,
     (R, "render_class", '"""{docstring}"""'): 0,                              # callers pass generator-fixed text (HTTP status names)
-    (R, "render_enum", '{member_name} = "{value}"'): 1,
     (R, "render_dataclass", '  # {comment_text}'): 10,
-    (R, "render_dataclass", '"{api_field}": "{python_field}",'): 2,
-    (R, "render_dataclass", '"{python_field}": "{api_field}",'): 2,
-    (R, "render_alias", '        ("{disc_value}", "{schema_name}"),'): 4,
-    (R, "render_alias", '            "{disc_value}": {schema_name},'): 4,
     (R, "render_dataclass", "{name}: {type_hint} = {default_expr}"): 0,       # carries the already rendered default expression (site 8)
     ("visit/client_visitor.py", "generate_client_mock_class", "Mock{class_name}"): 0,
     ("visit/client_visitor.py", "generate_client_mock_class", "    class My{class_name}Mock({mock_class_name}):"): 0,
@@ -62,7 +56,6 @@ KNOWN: dict[tuple[str, str, str], int] = {
     ("emitters/models_emitter.py", "_generate_init_py_content", "    '{name_to_export}',"): 0,
     ("helpers/endpoint_utils.py", "get_model_stub_args", '{prop}=""'): 0,   # not used by any emitter (dead helper)
     ("helpers/type_resolution/named_resolver.py", "resolve", '"{name_to_add}"'): 0,   # forward-reference class name
-    ("visit/client_visitor.py", "_generate_client_implementation", '"""Client for \'{tag}\' endpoints."""'): 13,
     ("visit/client_visitor.py", "generate_client_protocol", "def {module_name}(self) -> '{protocol_name}':"): 0,
     ("visit/client_visitor.py", "_generate_client_implementation", "Client for '{tag}' endpoints."): 12,
     ("visit/client_visitor.py", "_generate_client_implementation", "{spec.title} (version {spec.version})"): 15,
@@ -72,21 +65,13 @@ KNOWN: dict[tuple[str, str, str], int] = {
     ("visit/docs_visitor.py", "visit", "### {op.operation_id}\n"): 0,
     ("visit/docs_visitor.py", "visit", "{desc}\n"): 0,
     ("visit/endpoint/endpoint_visitor.py", "generate_endpoint_protocol", '"""Protocol defining the interface of {class_name} for dependency injection."""'): 0,
-    ("visit/endpoint/endpoint_visitor.py", "_generate_endpoint_implementation", '"""Client for {tag} endpoints. Uses HttpTransport for all HTTP and header management."""'): 13,
     ("visit/endpoint/generators/endpoint_method_generator.py", "_generate_implementation_method", 'url = f"{self.base_url}{formatted_path}"'): 0,   # path template: not a C15 text position (request URL, property C04)
     ("visit/endpoint/generators/endpoint_method_generator.py", "_generate_implementation_method", '"{op.method.value.upper()}", url,'): 0,   # HTTP verb enum
     ("visit/endpoint/generators/endpoint_method_generator.py", "_generate_implementation_method", "{op.summary or op.operation_id}"): 14,
     ("visit/endpoint/generators/endpoint_method_generator.py", "_generate_implementation_method", "- {content_type}"): 14,
     ("visit/endpoint/generators/mock_generator.py", "_transform_to_mock", '"{class_name}.{method_name}() not implemented. Override this method in your test subclass."'): 0,
-    ("visit/endpoint/generators/overload_generator.py", "_generate_single_overload", 'content_type: Literal["{content_type}"] = "{content_type}"'): 7,
     ("visit/endpoint/generators/request_generator.py", "generate_request_call", '"{op.method.upper()}", url'): 0,
-    ("visit/endpoint/generators/response_handler_generator.py", "_write_content_type_conditional_handling", 'if content_type == "{content_type_lower}":'): 7,
-    ("visit/endpoint/generators/response_handler_generator.py", "_write_content_type_conditional_handling", 'elif content_type == "{content_type_lower}":'): 7,
     (U, "_build_url_with_path_vars", 'f"{self.base_url}{formatted_path}"'): 0,   # path template
-    (U, "_write_query_params", '    "{original_param_name}": DataclassSerializer.serialize({param_var_name}){line_end}'): 5,
-    (U, "_write_query_params", '    **({"{original_param_name}": DataclassSerializer.serialize({param_var_name})} if {param_var_name} is n'): 5,
-    (U, "_write_header_params", '    "{original_header_name}": DataclassSerializer.serialize({param_var_name}){line_end}'): 6,
-    (U, "_write_header_params", '    **({"{original_header_name}": DataclassSerializer.serialize({param_var_name})} if {param_var_name} is'): 6,
     ("visit/exception_visitor.py", "visit", '    """Initialise {class_name} with the HTTP response.'): 0,
     ("visit/model/dataclass_generator.py", "_generate_untyped_wrapper_class", '__all__ = ["{class_name}"]\n\n@dataclass\nclass {class_name}:\n    """\n    {description}\n\n    Thi'): 11,
     ("visit/model/dataclass_generator.py", "_generate_typed_wrapper_class", '__all__ = ["{class_name}"]\n\n@dataclass\nclass {class_name}:\n    """\n    {description}\n\n    Thi'): 11,
@@ -97,7 +82,7 @@ KNOWN: dict[tuple[str, str, str], int] = {
     #  array -> default_factory, anonymous object -> default_factory, named enum -> 17, str -> 8 for EVERY declared type,
     #  bool/int/float -> str(value) which is not text)
     ("visit/model/dataclass_generator.py", "_get_field_default", "default-use: default_str = str(ps.default)"): 17,   # named enum: Name.MEMBER
-    ("visit/model/dataclass_generator.py", "_get_field_default", "default-use: escaped_inner_content = json.dumps(ps.default)[1:-1]"): 8,
+    ("visit/model/dataclass_generator.py", "_get_field_default", "default-use: escaped_inner_content = json.dumps(ps.default, ensure_ascii=False)[1:-1]"): 8,
     ("visit/model/dataclass_generator.py", "_get_field_default", "default-use: return str(ps.default)"): 0,   # under isinstance(bool) / isinstance((int, float)): not text
     ("visit/model/dataclass_generator.py", "generate", "default-use: synthetic_field_schema_for_default = IRSchema("): 0,   # array wrapper: copied, then default_factory=list
     ("visit/model/dataclass_generator.py", "generate", "default-use: IRSchema("): 0,                          # copied into another IRSchema
@@ -106,6 +91,37 @@ KNOWN: dict[tuple[str, str, str], int] = {
     ("visit/endpoint/generators/docstring_generator.py", "generate_docstring", "{body_desc} + ' (multipart/form-data)'"): 12,
     ("visit/endpoint/generators/docstring_generator.py", "generate_docstring", "{body_desc} + ' (x-www-form-urlencoded)'"): 12,
     ("visit/endpoint/generators/docstring_generator.py", "generate_docstring", "{body_desc} + ' (json)'"): 12,
+    # ---- escaped value sites (the key contains the escaper call WITH its arguments: changing the escaper needs a new model)
+    (R, "render_enum", "escaper: writer.write_line(f'{member_name} = {json.dumps(value, ensure_ascii=False)}')"): 1,
+    (R, "render_dataclass", "escaper: writer.write_line(f'{json.dumps(api_field, ensure_ascii=False)}: \"{python_field}\",')"): 2,
+    (R, "render_dataclass", "escaper: writer.write_line(f'\"{python_field}\": {json.dumps(api_field, ensure_ascii=False)},')"): 2,
+    (R, "render_dataclass", '{json.dumps(api_field, ensure_ascii=False)}: "{python_field}",'): 2,
+    (R, "render_dataclass", '"{python_field}": {json.dumps(api_field, ensure_ascii=False)},'): 2,
+    (R, "render_alias", "escaper: property_name_literal = json.dumps(discriminator.property_name, ensure_ascii=False)"): 3,
+    (R, "render_alias", "escaper: writer.write_line(f'        ({json.dumps(disc_value, ensure_ascii=False)}, \"{schema_name}\"),')"): 4,
+    (R, "render_alias", '        ({json.dumps(disc_value, ensure_ascii=False)}, "{schema_name}"),'): 4,
+    (R, "render_alias", "escaper: writer.write_line(f'            {json.dumps(disc_value, ensure_ascii=False)}: {schema_name},')"): 4,
+    (R, "render_alias", "escaper: writer.write_line(f'__all__ = {exports!r}')"): 0,     # list of sanitised class names
+    ("visit/model/dataclass_generator.py", "_get_field_default", "escaper: escaped_inner_content = json.dumps(ps.default, ensure_ascii=False)[1:-1]"): 8,
+    (U, "_write_query_params", "escaper: original_param_name = python_string_literal(p['original_name'])"): 5,
+    (U, "_write_header_params", "escaper: original_header_name = python_string_literal(p_info['original_name'])"): 6,
+    ("visit/endpoint/generators/overload_generator.py", "_generate_single_overload", "escaper: content_type_literal = python_string_literal(content_type)"): 7,
+    ("visit/endpoint/generators/response_handler_generator.py", "_write_content_type_conditional_handling", "escaper: content_type_lower = python_string_literal(content_type.lower())"): 7,
+    (U, "generate_url_and_args", "escaper: writer.write_line(f'    **({{\"Content-Type\": {raw_content_type!r}}} if bytes_content is not None else {{}}),')"): 20,
+    (U, "generate_url_and_args", '    **({"Content-Type": {raw_content_type!r}} if bytes_content is not None else {}),'): 20,
+    ("core/writers/code_writer.py", "python_string_literal", "'\"' + {value.encode('unicode_escape').decode('ascii').replace('\"', '\\\\\"')} + '\"'"): 5,   # the escaper of sites 5-7 itself (Escape.ascii_lit)
+    # ---- docstring sites escaped with documentation_writer.escape_docstring_text
+    ("visit/client_visitor.py", "_generate_client_implementation", "escaper: docstring_lines.append(escape_docstring_text(f'{spec.title} (version {spec.version})'))"): 15,
+    ("visit/client_visitor.py", "_generate_client_implementation", "escaper: writer.write_line(f"): 13,
+    ("visit/client_visitor.py", "_generate_client_implementation", '"""Client for \'{escape_docstring_text(tag)}\' endpoints."""'): 13,
+    ("visit/endpoint/endpoint_visitor.py", "_generate_endpoint_implementation", "escaper: writer.write_line(f"): 13,
+    ("visit/endpoint/endpoint_visitor.py", "_generate_endpoint_implementation", '"""Client for {escape_docstring_text(tag)} endpoints. Uses HttpTransport'): 13,
+    ("visit/endpoint/generators/endpoint_method_generator.py", "_generate_implementation_method", "escaper: writer.write_line(escape_docstring_text(f'{op.summary or op.operation_id}'))"): 14,
+    ("visit/endpoint/generators/endpoint_method_generator.py", "_generate_implementation_method", "escaper: writer.write_line(escape_docstring_text(f'- {content_type}'))"): 14,
+    ("visit/model/dataclass_generator.py", "_generate_untyped_wrapper_class", "escaper: description = escape_docstring_text(description)"): 11,
+    ("visit/model/dataclass_generator.py", "_generate_typed_wrapper_class", "escaper: description = escape_docstring_text(description)"): 11,
+    ("core/writers/documentation_writer.py", "render_docstring", "escaper: lines[1:] = [escape_docstring_text(line) for line in lines[1:]]"): 12,
+    (U, "generate_url_and_args", '{param_var_name} = quote(str(DataclassSerializer.serialize({param_var_name})), safe="")'): 0,   # sanitised identifier only
 }
 # every construction of a DocumentationBlock is an instance of site 12; the functions allowed to build one:
 DOCBLOCK_FUNCS = {
@@ -121,7 +137,7 @@ def _tmpl(node: ast.AST) -> str:
             if isinstance(v, ast.Constant):
                 out.append(str(v.value).replace("{", "{{").replace("}", "}}") if False else str(v.value))
             else:
-                out.append("{" + ast.unparse(v.value) + "}")
+                out.append("{" + ast.unparse(v.value) + ("!r" if v.conversion == 114 else "!s" if v.conversion == 115 else "") + "}")
         return "".join(out)
     if isinstance(node, ast.BinOp):
         return _tmpl_op(node.left) + " + " + _tmpl_op(node.right)
@@ -227,6 +243,27 @@ def scan(src_root: Path) -> tuple[list[tuple[str, int, str, str]], list[tuple[st
                     continue
                 whole = st if isinstance(st, (ast.Assign, ast.AnnAssign, ast.AugAssign, ast.Return, ast.Expr)) else q
                 cands.append((rel, node.lineno, func_of(node), "default-use: " + ast.unparse(whole)[:90]))
+
+        # calls of an escaper (json.dumps, python_string_literal, repr) and !r conversions render a VALUE into code:
+        # each is a site (with the escaper as its model), keyed by the enclosing simple statement
+        for node in ast.walk(mod):
+            esc = None
+            if isinstance(node, ast.Call):
+                f = node.func
+                nm = f.attr if isinstance(f, ast.Attribute) else f.id if isinstance(f, ast.Name) else ""
+                if (nm == "dumps" and isinstance(f, ast.Attribute) and isinstance(f.value, ast.Name) and f.value.id == "json") \
+                        or nm in ("python_string_literal", "repr", "escape_docstring_text"):
+                    esc = node
+            if isinstance(node, ast.FormattedValue) and node.conversion == 114:
+                esc = node
+            if esc is None or excluded(esc):
+                continue
+            q2: ast.AST = esc
+            while q2 in par and not isinstance(par[q2], ast.stmt):
+                q2 = par[q2]
+            st2 = par.get(q2)
+            whole2 = st2 if isinstance(st2, (ast.Assign, ast.AnnAssign, ast.AugAssign, ast.Return, ast.Expr)) else q2
+            cands.append((rel, esc.lineno, func_of(esc), "escaper: " + ast.unparse(whole2)[:110]))
 
         seen_nodes: set[int] = set()
         for node in ast.walk(mod):
